@@ -191,6 +191,17 @@ func (s *Sim) opOpenQuery(op *Op) {
 		one.N = 0
 		for i := 0; i < n && s.lockDepth <= 64 && !s.fatal; i++ {
 			before := s.lockDepth
+			if i > 0 && len(op.QR) > 0 {
+				// a different partition for every query of the burst
+				qr := make([]RelSpec, len(op.QR))
+				for k, r := range op.QR {
+					qr[k] = r
+					if r.Tgt >= 0 {
+						qr[k].Tgt = r.Tgt + i
+					}
+				}
+				one.QR = qr
+			}
 			s.opOpenQuery(&one)
 			if s.lockDepth == before {
 				break // skipped or the 65th was rejected
@@ -545,4 +556,29 @@ func (s *Sim) writeThroughQuery(oq *OpenQuery, op *Op, k int) {
 		e.Comps[t] = Norm(t, v)
 		s.C.Faults["write_through_query_pointer"]++
 	}
+}
+
+// opBatchUse obtains a Batch from a filter with per-call relation targets and
+// discards it, as the first step of any batch operation does. It changes
+// nothing in the world; it exercises the filter's internal relation buffer.
+func (s *Sim) opBatchUse(op *Op) {
+	if len(s.filters) == 0 {
+		s.skip(op)
+		return
+	}
+	fi := s.filters[abs(op.F)%len(s.filters)]
+	if !fi.A.CanRegister() {
+		s.skip(op)
+		return
+	}
+	_, qrels := s.queryRels(fi, op.QR, true)
+	if len(qrels) == 0 {
+		s.skip(op)
+		return
+	}
+	p, val := s.call(func() { _ = fi.A.Batch(qrels) })
+	if p {
+		s.violate("C06", "batch.selection", "Batch", false, "Filter.Batch with valid relation targets panicked: %v", val)
+	}
+	s.C.Faults["filter_batch_use"]++
 }
